@@ -7,6 +7,7 @@ import (
 	"os"
 	"sort"
 	"strconv"
+	"strings"
 	"time"
 
 	"golang.org/x/tools/go/ssa"
@@ -110,46 +111,68 @@ func runCheck(p *Prog, id, tier string) *Result {
 	r := NewResult(id)
 	checks[id](p, r, tier)
 	for _, sh := range sharedRules[id] {
-		shareRule(p, r, tier, sh.from, sh.rule, sh.as, sh.why)
+		shareRule(p, r, tier, sh.from, sh.rule, sh.as, sh.why, sh.only)
 	}
 	resultCache[id] = r
 	return r
 }
 
-type share struct{ from, rule, as, why string }
+type share struct{ from, rule, as, why, only string } // only: restrict to obligations whose construct contains it
+
+func sh(from, rule, as, why string, only ...string) share {
+	x := share{from: from, rule: rule, as: as, why: why}
+	if len(only) > 0 {
+		x.only = only[0]
+	}
+	return x
+}
 
 // sharedRules: structural necessary conditions that serve more than one property (no cycles: a check listed as `from`
 // never shares, directly or not, from the property that borrows from it).
 var sharedRules = map[string][]share{
 	"C01": {
-		{"C14", "C14.R1", "C01.S1", "a stored entry that aliases the caller's structure changes what reads report without any accepted write"},
-		{"C14", "C14.R2", "C01.S2", "a read that hands out the stored entry lets the caller change what later reads report"},
+		sh("C14", "C14.R1", "C01.S1", "a stored entry that aliases the caller's structure changes what reads report without any accepted write"),
+		sh("C14", "C14.R2", "C01.S2", "a read that hands out the stored entry lets the caller change what later reads report"),
 	},
-	"C03": {{"C04", "C04.R4", "C03.S1", "uniqueness is judged on the case-normalised value: a published schema without its transformer list judges raw values"}},
-	"C15": {{"C04", "C04.R4", "C15.S1", "the schema case transforms are a no-op on a published schema whose transformer list was not rebuilt"}},
-	"C16": {{"C04", "C04.R4", "C16.S1", "case-insensitive fields are stored and indexed un-normalised when a published schema lacks its transformer list"}},
-	"C08": {{"C10", "C10.R5", "C08.S1", "the flusher's closed-handle test and its flush must be one critical section, otherwise the flush can run after a concurrent Close/Drop returned (check-then-act)"}},
-	"C12": {{"C01", "C01.R2", "C12.S1", "under every cache / async valuation a delete evicts what that valuation caches, otherwise Exist/Get answers depend on the configuration"}},
-	"C13": {{"C02", "C02.R5", "C13.S1", "result order is the order of the live field index: a write through a result slice aliasing it re-orders or drops entries"}},
-	"C18": {{"C16", "C16.R4", "C18.S1", "field descriptors are part of schema.json and are compared on Create: the tag words must produce the constraint flags the pinned release wrote"}},
+	"C04": {sh("C10", "C10.R7", "C04.S1", "a pending write that survives the deletion of its object is flushed later: the file of a deleted object reappears and the reopened handle sees a collection the closed one did not have", "")},
+	"C05": {sh("C11", "C11.R6", "C05.S1", "reopening after a crash relies on the schema control to report every index/file divergence: a success path that skips an inclusion loop lets a stale entry survive unnoticed", "")},
+	"C06": {sh("C05", "C05.R5", "C06.S1", "a write that fails after the temporary file exists leaves that file behind: if the integrity control takes it for the object's file, the failed write is silently half-applied", "")},
+	"C11": {sh("C18", "C18.R1", "C11.S1", "Control and Repair decide which directory entries are object files with this pattern: it has to accept every identifier the write path can produce (callers may supply upper-case UUIDs)", "pattern.uuid")},
+	"C03": {sh("C04", "C04.R4", "C03.S1", "uniqueness is judged on the case-normalised value: a published schema without its transformer list judges raw values")},
+	"C15": {sh("C04", "C04.R4", "C15.S1", "the schema case transforms are a no-op on a published schema whose transformer list was not rebuilt")},
+	"C16": {sh("C04", "C04.R4", "C16.S1", "case-insensitive fields are stored and indexed un-normalised when a published schema lacks its transformer list")},
+	"C07": {sh("C08", "C08.R3", "C07.S1", "validate-all then insert-all is atomic only if both loops run in one critical section: a writer admitted in between makes the insert loop fail half-way")},
+	"C08": {sh("C10", "C10.R5", "C08.S1", "the flusher's closed-handle test and its flush must be one critical section, otherwise the flush can run after a concurrent Close/Drop returned (check-then-act)")},
+	"C12": {sh("C01", "C01.R2", "C12.S1", "under every cache / async valuation a delete evicts what that valuation caches, otherwise Exist/Get answers depend on the configuration")},
+	"C09": {sh("C13", "C13.R6", "C09.S1", "the bulk delete holds the handle write lock while it drains an iterator and continues after read errors: an iterator that does not advance on an error never reaches the end, the call never returns and every other call blocks")},
+	"C13": {sh("C02", "C02.R5", "C13.S1", "result order is the order of the live field index: a write through a result slice aliasing it re-orders or drops entries")},
+	"C17": {sh("C10", "C10.R8", "C17.S1", "re-creating a collection with the settings it already has must leave it working: a copied 'started' flag leaves the replaced settings without flusher")},
+	"C18": {sh("C17", "C17.R6", "C18.S2", "a stored schema whose extension / compression / descriptors are switched by a later Create no longer describes the files that are on disk"), sh("C16", "C16.R4", "C18.S1", "field descriptors are part of schema.json and are compared on Create: the tag words must produce the constraint flags the pinned release wrote")},
 	"C19": {
-		{"C17", "C17.R2", "C19.S1", "the index panics recorded as known findings are unreachable only for an index that passed the control: a schema published after a failed control reaches them"},
-		{"C11", "C11.R3", "C19.S2", "a schema whose load failed with a plain error must not stay in the table, later calls would work on an index that failed its own control"},
+		sh("C17", "C17.R2", "C19.S1", "the index panics recorded as known findings are unreachable only for an index that passed the control: a schema published after a failed control reaches them"),
+		sh("C02", "C02.R4", "C19.S3", "the comparators assert the dynamic type of both operands without a check: the class guard is what turns a mistyped search value into ErrCasting instead of a panic"),
+		sh("C11", "C11.R7", "C19.S4", "a structurally wrong schema.json (reordered or missing index entries) must be refused on every call, not published under the repairable class: the field-index deletion panics on such an index"),
+		sh("C11", "C11.R3", "C19.S2", "a schema whose load failed with a plain error must not stay in the table, later calls would work on an index that failed its own control"),
 	},
 }
 
 // shareRule re-states a rule of another property's check under this property: the rule is a necessary condition of
 // both. The obligations are those of the other check, run on the same program; `as` is the rule id here and `why` says
 // what this property needs it for.
-func shareRule(p *Prog, r *Result, tier, from, rule, as, why string) {
+func shareRule(p *Prog, r *Result, tier, from, rule, as, why, only string) {
 	src := runCheck(p, from, tier)
 	doc, ok := src.Rules[rule]
 	if !ok {
 		broken("shared rule %s not defined by %s", rule, from)
 	}
-	r.Rule(as, doc+" [same obligations as "+rule+"; needed here because "+why+"]", src.MinCount[rule])
+	min := src.MinCount[rule]
+	if only != "" {
+		doc += " (restricted to: " + only + ")"
+		min = 1
+	}
+	r.Rule(as, doc+" [same obligations as "+rule+"; needed here because "+why+"]", min)
 	for _, o := range src.Obligations() {
-		if o.Rule != rule {
+		if o.Rule != rule || (only != "" && !strings.Contains(o.Construct, only)) {
 			continue
 		}
 		n := r.Report(as, o.Func, o.Construct, o.Status, o.Detail, o.Where, o.Trace, o.Nontrivial)
@@ -218,16 +241,25 @@ func dumpRoot(p *Prog, name string) {
 		x.L = nopListener{}
 	}
 	x.Run()
-	type kv struct{k string; v int}
+	type kv struct {
+		k string
+		v int
+	}
 	var kvs []kv
-	for k, v := range x.Stat { kvs = append(kvs, kv{k, v}) }
+	for k, v := range x.Stat {
+		kvs = append(kvs, kv{k, v})
+	}
 	sort.Slice(kvs, func(i, j int) bool { return kvs[i].v > kvs[j].v })
-	for i, e := range kvs { if i < 15 { fmt.Println("STAT", e.k, e.v) } }
+	for i, e := range kvs {
+		if i < 15 {
+			fmt.Println("STAT", e.k, e.v)
+		}
+	}
 	fmt.Printf("states=%d paths=%d undecided=%v\n", x.States, x.Paths, x.Undecided)
 }
 
 type nopListener struct{}
 
-func (nopListener) Event(x *Explorer, st *State, ev *Event)                       {}
+func (nopListener) Event(x *Explorer, st *State, ev *Event)                    {}
 func (nopListener) Return(x *Explorer, st *State, ret *ssa.Return, res []Fact) {}
-func (nopListener) End(x *Explorer, st *State, reason string)                   {}
+func (nopListener) End(x *Explorer, st *State, reason string)                  {}
